@@ -72,6 +72,8 @@ class Escape:
                 return [i.context_expr for i in st.items]
             if isinstance(st, ast.Try):
                 return []
+            if isinstance(st, (ast.FunctionDef, ast.AsyncFunctionDef)):
+                return list(st.args.defaults) + [d for d in st.args.kw_defaults if d is not None]   # body: walked as a block
             return [st]
 
         guards = []
@@ -86,6 +88,10 @@ class Escape:
 
         def _walk(stmts, handled, nonzero):
             for st in stmts:
+                if isinstance(st, (ast.FunctionDef, ast.AsyncFunctionDef)):
+                    # a closure: its body is analysed flow-sensitively like any block (what fails in it fails in the
+                    # enclosing function when the closure is called); facts about enclosing locals are not assumed
+                    walk(st.body, handled, frozenset())
                 if isinstance(st, ast.Try):
                     hs = set(handled)
                     for h in st.handlers:
